@@ -8,6 +8,19 @@ HERE = os.path.dirname(os.path.dirname(os.path.abspath(__file__)))
 
 # id -> (technique, level text, level note, design ref)
 CLAIMS = {
+    "C14": (
+        "exhaustive truth tables over the finite ordering domain (9 cells x 6 comparisons) by abstract evaluation of "
+        "the comparison methods; magnitude-kind abstract interpretation of Time.__add__/from_float/__sub__/update; "
+        "who-constructs / who-reads checks over the whole package",
+        "Decides for all pairs of normalised times that the six comparisons equal the lexicographic (= exact rational) "
+        "order; that addition routes the displacement only through remainder + displacement -> divmod(., 1.0) (finite "
+        "operands only), so the result is normalised and its resolution is independent of the size of the quotient; "
+        "that subtraction forms the quotient difference first; that the infinity branches return (inf, inf); and that "
+        "no code outside time.py builds an unnormalised Time or does arithmetic on the parts. The ulp-level constants "
+        "of the bounds are not decided.",
+        "Trusted: the kind algebra in jfsa/props/c14.py (INTQ/FRAC/DISP/SMALL/DQ/ELAPSED/LOSSY) as a model of float "
+        "magnitude classes; divmod(x, 1.0) returns (integer-valued, [0,1)) for finite x >= 0.",
+        "DESIGN.md section 3, C14"),
     "C15": (
         "abstract interpretation (interval x congruence domain) over the AST of the boundary methods; who-may-write "
         "check on the box-length globals; sibling agreement",
